@@ -31,6 +31,7 @@ type GenCfg struct {
 	MaxParents int // other-parents drawn from [0,MaxParents)
 	MinParents int
 	ForkProb   float64
+	StrayProb  float64 // probability that a fork event is a stray twin nobody builds on (0 = the default 1/3)
 	PartProb   float64 // probability per event to start a partition period
 	TieHeavy   bool
 	IndexCfg   IndexCfg
@@ -408,7 +409,7 @@ func Generate(r *rand.Rand, cfg *GenCfg) (*DAG, *Inst, error) {
 					}
 				}
 			}
-			if forked && r.Intn(3) == 0 {
+			if forked && ((cfg.StrayProb == 0 && r.Intn(3) == 0) || (cfg.StrayProb > 0 && r.Float64() < cfg.StrayProb)) {
 				// a stray twin: nobody (not even its creator) ever builds on it
 				own[c] = own[c][:len(own[c])-1]
 				d.Stray++
